@@ -12,7 +12,7 @@ import numpy as np
 import pandas as pd
 
 ROW_KINDS = ("array2d", "array1d", "list2d", "list1d", "intarray", "frame", "series", "reused1d", "reused2d", "tuple")
-BATCH_KINDS = ("array", "fortran", "frame", "lists", "intarray", "strided", "reused", "intframe", "dupframe")
+BATCH_KINDS = ("array", "fortran", "frame", "lists", "intarray", "strided", "reused", "intframe", "dupframe", "dupindex")
 
 
 NARROW = {"uint8array": (np.uint8, 0, 255), "uint16array": (np.uint16, 0, 65535), "int32array": (np.int32, -2 ** 31, 2 ** 31 - 1)}
@@ -102,6 +102,8 @@ class Feeder:
             return np.asfortranarray(a)
         if kind in ("frame", "dupframe"):
             return pd.DataFrame(a, columns=self._names(d))
+        if kind == "dupindex":         # row labels that repeat (batches glued with pd.concat without ignore_index): rows are rows
+            return pd.DataFrame(a, columns=self._names(d), index=[i % 4 for i in range(n)])
         if kind == "intframe":
             whole = bool(np.all(a == np.round(a)))
             return pd.DataFrame(a.astype(np.int64) if whole else a, columns=self._names(d))
